@@ -282,6 +282,11 @@ def compare(it, op, a, b, node):
                     return K((va in cont) != neg)
                 except TypeError:
                     pass
+        if isinstance(b, Val) and getattr(b, "series", False) and not getattr(a, "is_index", False):
+            # `v in <column of a table>` asks whether v is one of the column's ROW LABELS, not one of its values
+            it.record("typing", "in-series", [a, b], {}, node)
+            t = call("in_labels", to_term(a), call("index", const(b.space.id if getattr(b, "space", None) is not None else 0)))
+            return Val(mk("not", t) if neg else t)
         t = call("in", to_term(a), to_term(b))
         return Val(mk("not", t) if neg else t, space=_space(a))
     opn = CMPOPS.get(type(op))
@@ -304,6 +309,8 @@ def compare(it, op, a, b, node):
             t = c if t is None else mk("and", t, c)
         if len(a.items) != len(b.items):
             return K(opn == "ne")
+        if any(is_pyconst(x) and is_pyconst(y) and pyval(x) != pyval(y) for x, y in zip(a.items, b.items)):
+            return K(opn == "ne")  # one component differs for certain: (n, 4) == (1, 3) is false whatever n is
         if all(to_term(x) == to_term(y) for x, y in zip(a.items, b.items)):
             return K(opn == "eq")
         return Val(t if opn == "eq" else mk("not", t))
@@ -1374,6 +1381,18 @@ def arr_setitem(it, a, idx, value, node):
         a.cols[:] = [mk("ite", mask, t, c) for t, c in zip(terms_, a.cols)]
         it.record("store", "array", [a, idx, value], {}, node)
         return
+    if a.ndim == 2 and isinstance(idx, Arr) and idx.ndim == 2 and len(idx.cols) == len(a.cols) and isinstance(value, Arr) and len(value.cols) == len(a.cols):
+        # a[M] = b[M] with an element-wise mask M of a's own shape: every element for which its own flag is set is replaced
+        a.cols[:] = [mk("ite", m_, v_, c_) for m_, v_, c_ in zip(idx.cols, value.cols, a.cols)]
+        it.record("store", "array", [a, idx, value], {}, node)
+        return
+    if a.ndim == 2 and isinstance(idx, Arr) and idx.ndim == 2 and len(idx.cols) == len(a.cols) and isinstance(value, (Val, Unk)) and not isinstance(value, Arr):
+        v_ = to_term(value)
+        a.cols[:] = [mk("ite", m_, v_, c_) for m_, c_ in zip(idx.cols, a.cols)]
+        it.record("store", "array", [a, idx, value], {}, node)
+        return
+    # a store of a form that is not modelled: what the array holds afterwards is unknown (never silently the old content)
+    a.cols[:] = [call("stored", c_, to_term(idx), to_term(value)) for c_ in a.cols]
     it.record("store", "array-opaque", [a, idx, value], {}, node)
 
 
